@@ -4,7 +4,7 @@
      agree_id / agree_ref    one node: the parser-side reading (e_item_name, the reference test of refs_of) and the
                              specification-side reading (identifiable, seg, ref_text) coincide
      enum_ids / enum_refs    the whole tree, both directions *)
-From Coq Require Import Lia.
+From Coq Require Import Lia PeanoNat Arith.
 From AV Require Import Base.Bytes Base.Outcome Hash.HashModel Spec.SpecOps Tree.Heap Tree.Ops Tree.Script Tree.Load Tree.MergeSpec
   Tree.IndexProofsW Tree.Index Tree.IndexProofsBase Tree.IndexProofsTree Tree.LoadRefineIndex Tree.FollowProofsLoadRep.
 From AV Require Xml.Lexer Xml.Parser.
@@ -21,6 +21,55 @@ Proof.
   - destruct H as [_ H]. rewrite (IH kr H). reflexivity.
   - rewrite (IH kr H). reflexivity.
 Qed.
+
+Lemma etree_ind_in (Q : Parser.etree -> Prop) :
+  (forall name ty attrs content comment, (forall c, In (inl c) content -> Q c) -> Q (Parser.ENode name ty attrs content comment)) ->
+  forall e, Q e.
+Proof.
+  intros H. fix IH 1. intros [name ty attrs content comment]. apply H.
+  induction content as [|[c|d] r IHr]; intros c0 Hin; [destruct Hin| |].
+  - destruct Hin as [E|Hin]; [injection E as <-; apply IH|apply IHr; exact Hin].
+  - destruct Hin as [E|Hin]; [discriminate E|apply IHr; exact Hin].
+Qed.
+
+Section Go.
+Variable T : tables.
+
+Lemma idents_go_inv p' pos : forall l k x,
+  In x (idents_go T p' pos k l) -> exists j c, nth_error l j = Some (inl c) /\ In x (idents_of T p' ((k + j)%nat :: pos) c).
+Proof.
+  induction l as [|[c|d] r IH]; intros k x Hin; cbn [idents_go] in Hin; [destruct Hin| |].
+  - apply in_app_or in Hin as [Hin|Hin].
+    + exists O, c. rewrite Nat.add_0_r. auto.
+    + destruct (IH (S k) x Hin) as (j & c' & A & B). exists (S j), c'. split; [exact A|]. rewrite <- plus_n_Sm. exact B.
+  - destruct (IH (S k) x Hin) as (j & c' & A & B). exists (S j), c'. split; [exact A|]. rewrite <- plus_n_Sm. exact B.
+Qed.
+Lemma idents_go_nth p' pos : forall l k j c x,
+  nth_error l j = Some (inl c) -> In x (idents_of T p' ((k + j)%nat :: pos) c) -> In x (idents_go T p' pos k l).
+Proof.
+  induction l as [|[c0|d] r IH]; intros k [|j] c x Hn Hin; cbn [nth_error idents_go] in *; try discriminate.
+  - injection Hn as <-. rewrite Nat.add_0_r in Hin. apply in_or_app. left. exact Hin.
+  - apply in_or_app. right. apply (IH (S k) j c x Hn). rewrite plus_Sn_m, plus_n_Sm. exact Hin.
+  - apply (IH (S k) j c x Hn). rewrite plus_Sn_m, plus_n_Sm. exact Hin.
+Qed.
+Lemma refs_go_inv pos : forall l k x,
+  In x (refs_go T pos k l) -> exists j c, nth_error l j = Some (inl c) /\ In x (refs_of T ((k + j)%nat :: pos) c).
+Proof.
+  induction l as [|[c|d] r IH]; intros k x Hin; cbn [refs_go] in Hin; [destruct Hin| |].
+  - apply in_app_or in Hin as [Hin|Hin].
+    + exists O, c. rewrite Nat.add_0_r. auto.
+    + destruct (IH (S k) x Hin) as (j & c' & A & B). exists (S j), c'. split; [exact A|]. rewrite <- plus_n_Sm. exact B.
+  - destruct (IH (S k) x Hin) as (j & c' & A & B). exists (S j), c'. split; [exact A|]. rewrite <- plus_n_Sm. exact B.
+Qed.
+Lemma refs_go_nth pos : forall l k j c x,
+  nth_error l j = Some (inl c) -> In x (refs_of T ((k + j)%nat :: pos) c) -> In x (refs_go T pos k l).
+Proof.
+  induction l as [|[c0|d] r IH]; intros k [|j] c x Hn Hin; cbn [nth_error refs_go] in *; try discriminate.
+  - injection Hn as <-. rewrite Nat.add_0_r in Hin. apply in_or_app. left. exact Hin.
+  - apply in_or_app. right. apply (IH (S k) j c x Hn). rewrite plus_Sn_m, plus_n_Sm. exact Hin.
+  - apply (IH (S k) j c x Hn). rewrite plus_Sn_m, plus_n_Sm. exact Hin.
+Qed.
+End Go.
 
 Section Enum.
 Variable T : tables.
@@ -109,6 +158,91 @@ Proof.
     cbn [citems]. cbn. destruct d; reflexivity.
   - destruct (citems kids (inr d :: x :: r)) as [|a [|b l]] eqn:Ec; cbn in Hlen; try discriminate Hlen.
     destruct a; destruct d; reflexivity.
+Qed.
+
+(* ---------- the whole tree *)
+Lemma rev_cons_app {A} (k : A) pos0 q : rev (k :: pos0) ++ q = rev pos0 ++ k :: q.
+Proof. cbn [rev]. rewrite <- app_assoc. reflexivity. Qed.
+
+Lemma enum_ids : forall e t path pos0,
+  Rep lo w t e -> P (it_id t) ->
+  (forall p pos, In (p, pos) (idents_of T path pos0 e) ->
+     exists q tc s, pos = rev pos0 ++ q /\ it_sub t q = Some tc /\ identifiable T w (it_id tc) = true /\
+                    dpath T w (it_id t) (it_id tc) s /\ p = path ++ seg T w (it_id t) ++ s) /\
+  (forall j s, dpath T w (it_id t) j s -> identifiable T w j = true ->
+     exists q tc, it_sub t q = Some tc /\ it_id tc = j /\
+                  In (path ++ seg T w (it_id t) ++ s, rev pos0 ++ q) (idents_of T path pos0 e)).
+Proof.
+  intros e. induction e as [name ty attrs content comment IH] using etree_ind_in. intros [i kids] path pos0 HR HP.
+  pose proof (agree_id i kids _ HR HP) as HA. cbn [it_id] in *.
+  pose proof HR as HR0. apply Rep_unfold in HR as ((n & Hn & (E1 & E2 & E3)) & _ & HK).
+  rewrite idents_unfold. cbv zeta.
+  set (e := Parser.ENode name ty attrs content comment) in *.
+  assert (Hp' : match e_item_name T e with Some nm => path ++ [47] ++ nm | None => path end = path ++ seg T w i).
+  { destruct (e_item_name T e) as [nm|]; destruct HA as (_ & ->); [reflexivity|rewrite app_nil_r; reflexivity]. }
+  rewrite Hp'. split.
+  - intros p pos Hin. apply in_app_or in Hin as [Hin|Hin].
+    + destruct (e_item_name T e) as [nm|] eqn:Een; [|destruct Hin]. destruct Hin as [[= <- <-]|[]].
+      exists [], (INode i kids), []. rewrite !app_nil_r. cbn [it_sub it_id]. destruct HA as (HA1 & _).
+      repeat split; auto. constructor.
+    + destruct (idents_go_inv T _ _ _ _ _ Hin) as (k & c & Hk & Hin'). cbn [plus] in Hin'.
+      destruct (Reps_nth lo w content kids k c HK Hk) as (tc & Hkt & HRc & Hcin).
+      assert (Hch : child_of w i (it_id tc)) by (exists n; split; [exact Hn|rewrite E3; exact Hcin]).
+      destruct (IH c (nth_error_In _ _ Hk) tc (path ++ seg T w i) (k :: pos0) HRc (Pclosed _ _ HP Hch)) as (IHs & _).
+      destruct (IHs p pos Hin') as (q & tc' & s & -> & Hsub & Hid & Hd & ->).
+      exists (k :: q), tc', (seg T w (it_id tc) ++ s). split; [apply rev_cons_app|]. split; [cbn [it_sub]; rewrite Hkt; exact Hsub|].
+      split; [exact Hid|]. split; [apply dpath_cons; assumption|]. rewrite <- !app_assoc. reflexivity.
+  - intros j s Hd Hid. apply dpath_head in Hd as [(-> & ->)|(c & s' & Hch & Hd & ->)].
+    + exists [], (INode i kids). cbn [it_sub it_id]. split; [reflexivity|]. split; [reflexivity|]. rewrite !app_nil_r.
+      apply in_or_app. left. destruct (e_item_name T e) as [nm|]; [left; reflexivity|]. destruct HA as (HA1 & _). congruence.
+    + destruct Hch as (n' & Hn' & Hcin). assert (n' = n) by congruence. subst n'. rewrite E3 in Hcin.
+      destruct (Reps_child lo w content kids c HK Hcin) as (k & ce & tc & Hk & Hkt & <- & HRc).
+      assert (Hch : child_of w i (it_id tc)) by (exists n; split; [exact Hn|rewrite E3; exact Hcin]).
+      destruct (IH ce (nth_error_In _ _ Hk) tc (path ++ seg T w i) (k :: pos0) HRc (Pclosed _ _ HP Hch)) as (_ & IHc).
+      destruct (IHc j s' Hd Hid) as (q & tc' & Hsub & Hj & Hin).
+      exists (k :: q), tc'. split; [cbn [it_sub]; rewrite Hkt; exact Hsub|]. split; [exact Hj|].
+      apply in_or_app. right. apply (idents_go_nth T _ _ content O k ce); [exact Hk|]. cbn [plus].
+      rewrite rev_cons_app in Hin. rewrite <- !app_assoc in Hin. exact Hin.
+Qed.
+
+Lemma enum_refs : forall e t pos0,
+  Rep lo w t e -> P (it_id t) ->
+  (forall p pos, In (p, pos) (refs_of T pos0 e) ->
+     exists q tc, pos = rev pos0 ++ q /\ it_sub t q = Some tc /\ ref_text T w (it_id tc) = Some p /\
+                  reach T w (it_id t) (it_id tc)) /\
+  (forall j p, reach T w (it_id t) j -> ref_text T w j = Some p ->
+     exists q tc, it_sub t q = Some tc /\ it_id tc = j /\ In (p, rev pos0 ++ q) (refs_of T pos0 e)).
+Proof.
+  intros e. induction e as [name ty attrs content comment IH] using etree_ind_in. intros [i kids] pos0 HR HP.
+  pose proof (agree_ref i kids _ HR) as HA. cbn [it_id] in *.
+  apply Rep_unfold in HR as ((n & Hn & (E1 & E2 & E3)) & _ & HK).
+  rewrite refs_unfold. unfold e_ref_text in HA. cbn [e_ty Parser.e_content] in HA. split.
+  - intros p pos Hin. apply in_app_or in Hin as [Hin|Hin].
+    + exists [], (INode i kids). cbn [it_sub it_id]. rewrite app_nil_r.
+      assert (Hp : pos = rev pos0 /\ ref_text T w i = Some p).
+      { rewrite <- HA. destruct (is_ref T ty) as [[|]| |]; try (destruct Hin; fail).
+        destruct content as [|[c|[]] [|? ?]]; try (destruct Hin; fail). destruct Hin as [[= <- <-]|[]]. auto. }
+      destruct Hp as (-> & Hp). repeat split; auto. apply reach_refl.
+    + destruct (refs_go_inv T _ _ _ _ Hin) as (k & c & Hk & Hin'). cbn [plus] in Hin'.
+      destruct (Reps_nth lo w content kids k c HK Hk) as (tc & Hkt & HRc & Hcin).
+      assert (Hch : child_of w i (it_id tc)) by (exists n; split; [exact Hn|rewrite E3; exact Hcin]).
+      destruct (IH c (nth_error_In _ _ Hk) tc (k :: pos0) HRc (Pclosed _ _ HP Hch)) as (IHs & _).
+      destruct (IHs p pos Hin') as (q & tc' & -> & Hsub & Ht & Hr).
+      exists (k :: q), tc'. split; [apply rev_cons_app|]. split; [cbn [it_sub]; rewrite Hkt; exact Hsub|].
+      split; [exact Ht|]. eapply reach_trans; [|exact Hr]. eapply reach_step; [apply reach_refl|exact Hch].
+  - intros j p (s & Hd) Ht. apply dpath_head in Hd as [(-> & ->)|(c & s' & Hch & Hd & ->)].
+    + exists [], (INode i kids). cbn [it_sub it_id]. split; [reflexivity|]. split; [reflexivity|]. rewrite app_nil_r.
+      apply in_or_app. left. rewrite Ht in HA.
+      destruct (is_ref T ty) as [[|]| |]; try discriminate HA.
+      destruct content as [|[c|[]] [|? ?]]; try discriminate HA. injection HA as ->. left. reflexivity.
+    + destruct Hch as (n' & Hn' & Hcin). assert (n' = n) by congruence. subst n'. rewrite E3 in Hcin.
+      destruct (Reps_child lo w content kids c HK Hcin) as (k & ce & tc & Hk & Hkt & <- & HRc).
+      assert (Hch : child_of w i (it_id tc)) by (exists n; split; [exact Hn|rewrite E3; exact Hcin]).
+      destruct (IH ce (nth_error_In _ _ Hk) tc (k :: pos0) HRc (Pclosed _ _ HP Hch)) as (_ & IHc).
+      destruct (IHc j p (ex_intro _ s' Hd) Ht) as (q & tc' & Hsub & Hj & Hin).
+      exists (k :: q), tc'. split; [cbn [it_sub]; rewrite Hkt; exact Hsub|]. split; [exact Hj|].
+      apply in_or_app. right. apply (refs_go_nth T _ content O k ce); [exact Hk|]. cbn [plus].
+      rewrite rev_cons_app in Hin. exact Hin.
 Qed.
 
 End Enum.
